@@ -44,6 +44,9 @@ class BaseGotranODECodePrinter(StrPrinter):
             return f"Not(Eq({lhs}, {rhs}))"
         return f"{relop}({lhs}, {rhs})"
 
+    def _print_Not(self, expr):
+        return f"Not({self._print(expr.args[0])})"
+
     def _print_Or(self, expr):
         return f"Or({', '.join(self._print(a) for a in expr.args)})"
 
@@ -65,7 +68,11 @@ class BaseGotranODECodePrinter(StrPrinter):
         return "1"
 
     def _print_Piecewise(self, expr):
-        conds, exprs = _print_Piecewise(self, expr)
+        # Write the conditional as it is. sympy.simplify may rewrite a branch using its
+        # condition (Conditional(Eq(h, a), a, m) -> Conditional(Eq(a, h), h, m)), which keeps
+        # the value but changes the derivatives (Rush-Larsen linearization, Jacobian) of the
+        # reloaded model
+        conds, exprs = _print_Piecewise(self, expr, simplify=False)
 
         result = []
 
